@@ -16,7 +16,11 @@
    and the predicates of PublishRules are evaluated on that view
    (P_C06_Never, _Direct, _Flood, _Mesh, _Fanout, _FanoutStable, _FloodPublish,
    _Floodsub, _Randomsub).  In addition, on every step:
-     P_C06_Copy          every received frame carrying a message has copyEqual;
+     P_C06_Copy          every received frame carrying a message has copyEqual (the marshalled
+                         bytes of the received pb.Message - from, data, seqno, topic, signature,
+                         key and unrecognised fields - equal those of the message as it was sent
+                         to the node; both sides use the canonical encoding, so this is equality
+                         of the wire bytes of the message);
                          in a Deliver step every Send shows up as a frame (unless the
                          peer is gated / gone), every frame has a Send event, and the
                          node's own messages arrive signed and authored by the node;
@@ -119,6 +123,20 @@ StepOut(kind, tags, sig) ==
     PrintT(<<"STEP", ToJson([kind |-> kind, at |-> Where, tags |-> tags, sig |-> sig])>>)
 
 \* --------------------------------------------------------------- judging one Deliver step
+(* Which optional fields the accepted remote message carries (harness/drivers/c06 builds them as the `msg`
+   stimulus says): P_C06_Copy is only as strong as the variety of messages whose copies were compared. *)
+ActFlag(k) == E.act.a = "msg" /\ Has(E.act, k) /\ E.act[k]
+ActRsa == E.act.a = "msg" /\ Has(E.act, "rsa") /\ E.act.rsa > 0
+FieldTags ==
+    LET keyed == (ActRsa \/ ActFlag("withKey")) /\ ~ActFlag("unsigned") /\ ~ActFlag("nofrom")
+    IN Tag(keyed, "forwarded-copy-with-key") \cup Tag(keyed, "forwarded-copy-with-key-" \o Router)
+       \cup Tag(ActRsa, "forwarded-copy-rsa-author")
+       \cup Tag(ActFlag("unk"), "forwarded-copy-unknown-field")
+       \cup Tag(E.act.a = "msg" /\ Has(E.act, "size") /\ E.act.size >= 1000, "forwarded-copy-large")
+       \cup Tag(ActFlag("unsigned") \/ ActFlag("nofrom"), "forwarded-copy-unsigned")
+       \cup Tag(ActFlag("nofrom"), "forwarded-copy-no-from")
+       \cup Tag(ActFlag("noseqno"), "forwarded-copy-no-seqno")
+
 FanPre(t)  == IF Gossip THEN SetAt(P.fanout, t) ELSE {}
 FanPost(t) == IF Gossip THEN SetAt(Q.fanout, t) ELSE {}
 JudgeDeliver(d, local, batch, fpre, fpost) ==
@@ -140,6 +158,7 @@ JudgeDeliver(d, local, batch, fpre, fpost) ==
                 \cup Tag(Gossip /\ ~v.local /\ ~v.joined /\ ~FloodMode(v) /\ v.fanout # {} /\ d.topic \in fanLost,
                          "fanout-reuse-after-member-removed")
                 \cup Tag(DropTo(m) # {}, "drop-counts-as-sent")
+                \cup (IF Wire # {} THEN FieldTags ELSE {})     \* copies arrived: copyEqual compared them with what was received
                 \cup Tag(ambiguous, "message-name-reused")
         sig  == [router |-> Router, own |-> d.via = "self", sa |-> d.via = d.from, local |-> v.local, flood |-> v.floodPublish,
                  joined |-> v.joined, ntp |-> Cardinality(v.tp), nmesh |-> Cardinality(v.mesh), nfan |-> Cardinality(v.fanout),
